@@ -41,7 +41,7 @@ def demo(root, path):
 
 def main():
     prop, i, name = sys.argv[1:4]
-    src = "/tmp/seed/%s-out" % prop
+    src = os.environ.get("SEED_DIR", "/tmp/seed") + "/%s-out" % prop
     patch = "%s/patch%s.diff" % (src, i)
     dem = "%s/demo%s.py" % (src, i)
     notes = "%s/notes%s.md" % (src, i)
